@@ -207,6 +207,46 @@ func matches(re, s string) bool {
 
 // errorSentinels returns the package-level error variables mentioned by the
 // error operand e, looking through fmt.Errorf argument arrays.
+// wrappedOperands: the error values a fmt.Errorf call wraps with %w (those
+// errors.Is finds again), or the operands of errors.Join; ok is false when the
+// call is neither or its format is not a constant.
+func wrappedOperands(p *core.Prog, c *ssa.Call) (out []ssa.Value, ok bool) {
+	name := p.X(c).Name
+	if name == "errors.Join" && len(c.Call.Args) == 1 {
+		for _, a := range variadicArgs(p, c.Call.Args[0]) {
+			out = append(out, a.Val)
+		}
+		return out, true
+	}
+	if name != "fmt.Errorf" || len(c.Call.Args) != 2 {
+		return nil, false
+	}
+	fc, isC := c.Call.Args[0].(*ssa.Const)
+	if !isC || fc.Value == nil || fc.Value.Kind() != constant.String {
+		return nil, false
+	}
+	args := variadicArgs(p, c.Call.Args[1])
+	ai := 0
+	format := constant.StringVal(fc.Value)
+	for i := 0; i < len(format); i++ {
+		if format[i] != '%' {
+			continue
+		}
+		i++
+		for i < len(format) && strings.ContainsRune("+-# 0123456789.[]*", rune(format[i])) {
+			i++
+		}
+		if i >= len(format) || format[i] == '%' {
+			continue
+		}
+		if format[i] == 'w' && ai < len(args) {
+			out = append(out, args[ai].Val)
+		}
+		ai++
+	}
+	return out, true
+}
+
 func errorSentinels(p *core.Prog, v ssa.Value) []string {
 	set := map[string]bool{}
 	var visit func(v ssa.Value, depth int)
